@@ -9,6 +9,7 @@ Open Scope N_scope.
 Record rcase := {
   rc_lc : lctx;
   rc_max : nat;                                         (* MaxResultChars *)
+  rc_max_tpl : nat;                                     (* MaxTemplateChars (negative = 0) *)
   rc_node : node;
   rc_flow_nodes : list uuid;
   rc_site : call_site;
@@ -103,7 +104,7 @@ Definition outcome_code (o : node_outcome) : N :=
 Definition run_model (k : rcase) : visit_out :=
   visit N (lookup_eval (rc_evals k)) (lookup_text (rc_texts k))
         (fun t => existsb (N.eqb t) (rc_registered k)) (lookup_test (rc_tests k))
-        (rc_lc k) (rc_max k) (rc_site k) (rc_flow_nodes k) (rc_node k) (rc_is_timeout k)
+        (rc_lc k) (rc_max k) (rc_max_tpl k) (rc_site k) (rc_flow_nodes k) (rc_node k) (rc_is_timeout k)
         (rc_draw k) (scan_timeouts (rc_timeouts k)) (rc_prev k).
 
 Definition check (k : rcase) : bool :=
